@@ -76,6 +76,7 @@ type BaseStore struct {
 	muCache   sync.RWMutex
 	muIndex   sync.RWMutex
 	muJoining sync.Mutex
+	muUpdate  sync.Mutex
 	sortFn    ipfslog.SortFn
 	logger    *zap.Logger
 	tracer    trace.Tracer
@@ -907,6 +908,11 @@ func (b *BaseStore) recalculateReplicationStatus(maxTotal int) {
 func (b *BaseStore) updateIndex(ctx context.Context) error {
 	_, span := b.tracer.Start(ctx, "update-index")
 	defer span.End()
+
+	// rebuilds are serialised: a rebuild that read an older log must not
+	// overwrite the view produced by one that read a newer log
+	b.muUpdate.Lock()
+	defer b.muUpdate.Unlock()
 
 	if err := b.Index().UpdateIndex(b.OpLog(), []ipfslog.Entry{}); err != nil {
 		return fmt.Errorf("unable to update index: %w", err)
